@@ -10,13 +10,18 @@ rm -rf "$WT"; git -C /repo worktree prune
 git -C /repo worktree add --detach "$WT" HEAD >/dev/null 2>&1 || { echo "RESULT $NAME worktree-failed"; exit 2; }
 cp -r /repo/target "$WT/target" 2>/dev/null
 cd "$WT"
-suite() { # runs whole suite; tolerates the load-flaky beacon test if it passes alone
-  out=$(cargo test --offline 2>&1); 
+suite() { # runs whole suite; tolerates the load-flaky beacon test (100 ms sleeps) if it passes alone in one of 6 tries
+  out=$(cargo test --offline 2>&1);
   if echo "$out" | grep -q "^test result: ok"; then echo ok; return; fi
-  failed=$(echo "$out" | grep -E "^test .* FAILED" | grep -v "beacon::encode_decode_cmd" | wc -l)
+  failed=$(echo "$out" | grep -E "^test [^ ]+ \.\.\. FAILED" | grep -v "beacon::encode_decode_cmd" | wc -l)
   compiled=$(echo "$out" | grep -c "^test result")
   if [ "$compiled" = "0" ]; then echo "compile-error"; return; fi
-  if [ "$failed" = "0" ] && cargo test --offline encode_decode_cmd 2>&1 | grep -q "^test result: ok"; then echo ok; else echo "failed: $(echo "$out" | grep -E '^test .* FAILED' | head -3 | tr '\n' ' ')"; fi
+  if [ "$failed" != "0" ]; then echo "failed: $(echo "$out" | grep -E '^test .* FAILED' | head -3 | tr '\n' ' ')"; return; fi
+  for i in 1 2 3 4 5 6; do
+    if cargo test --offline encode_decode_cmd 2>&1 | grep -q "^test result: ok"; then echo ok; return; fi
+    sleep 2
+  done
+  echo "failed: only beacon::encode_decode_cmd (timing test), also alone"
 }
 A="?"; B="?"; C="?"
 git apply "$PATCH" 2>/dev/null || git apply -3 "$PATCH" 2>/dev/null || { echo "RESULT $NAME patch-does-not-apply"; cd /; git -C /repo worktree remove --force "$WT"; exit 1; }
@@ -25,7 +30,9 @@ git apply "$DEMO" 2>/dev/null || { echo "RESULT $NAME demo-does-not-apply a=$A";
 out=$(cargo test --offline "$FILTER" 2>&1)
 if echo "$out" | grep -qE "^test result: FAILED"; then B="fails"; elif echo "$out" | grep -qE "^test result: ok. [1-9]"; then B="passes(!)"; else B="no-tests-or-compile-error"; fi
 BMSG=$(echo "$out" | grep -E "panicked at|assertion" | head -2 | tr '\n' ' ' | cut -c1-300)
-git apply -R "$PATCH" 2>/dev/null || git apply -R -3 "$PATCH"
+# back to the unmodified tree, demonstration only
+git checkout -q -- . && git clean -fdq src && git reset -q && git checkout -q -- .
+git apply "$DEMO" || echo "demo does not re-apply"
 out=$(cargo test --offline "$FILTER" 2>&1)
 if echo "$out" | grep -qE "^test result: ok. [1-9]" && ! echo "$out" | grep -qE "^test result: FAILED"; then C="passes"; else C="fails(!)"; fi
 cd /; git -C /repo worktree remove --force "$WT"
